@@ -258,7 +258,6 @@ class Parser:
         self.in_recursive_rule = 0
 
         # handle path literal joined-str
-        self._path_token: TokenInfo | None = None
 
         # Pass through common tokenizer methods.
         self._mark = self._tokenizer.mark
@@ -595,20 +594,21 @@ class Parser:
                 end_col_offset=end[1],
             )
 
-        if path_tok or self._path_token:
+        # (an f-string piece with a p prefix carries the mark itself: a parser-wide flag would be taken
+        # by whichever string is completed next, e.g. one nested in a field of a later piece)
+        if path_tok or any(getattr(p, "path_prefix", False) for p in parts):
             locs = {k: getattr(node, k) for k in ("lineno", "col_offset", "end_lineno", "end_col_offset")}
             node = xonsh_call("__xonsh__.path_literal", node, **locs)  # spans the whole literal
-            self._path_token = None
         return node
 
     def handle_fstring(
         self, a: TokenInfo, b: list[ast.FormattedValue | ast.Constant], **locs: int
     ) -> ast.JoinedStr:
-        path_tok = self._strip_path_prefix(a)
-        if path_tok:
-            self._path_token = path_tok
         prefix = a.string.rstrip("'\"").lower()
-        return ast.JoinedStr(values=self._fstring_values(b, raw="r" in prefix, in_spec=False), **locs)
+        node = ast.JoinedStr(values=self._fstring_values(b, raw="r" in prefix, in_spec=False), **locs)
+        if self._strip_path_prefix(a):
+            node.path_prefix = True  # type: ignore[attr-defined]  # consumed by concatenate_strings
+        return node
 
     def fstring_field(
         self,
